@@ -267,6 +267,14 @@ class TData(Type):
             return self.dt.none_term()
         return self.dt.coerce(v, ctx)
 
+    def coerce(self, v, ctx):
+        if isinstance(v, SData) or v is None:
+            return v
+        try:
+            return SData(self.dt.coerce(v, ctx), self)
+        except Unsupported:
+            return v
+
     def invariant(self, v):
         inv = self.dt.invariant(v.t)
         if not self.optional and self.dt.none_ctor is not None:
